@@ -1,26 +1,23 @@
-/* C10(a): SegmentTreeNode::findRoute (src/server/router.cc, sel mode) on a SYMBOLIC segment tree.
- * The tree is a pool of NNODES nodes; every node has 0..2 fixed children (keys "a"/"b"), 0..NPAR parameter children, 0..1 optional
- * child, possibly a splat child and possibly a route; child links are arbitrary forward links (every tree addRoute can build with
- * these keys is among them).  The request path has exactly NSEG segments over {a,b}.  The real findRoute is compared with a
- * reference matcher written from the property: fixed over parameter over optional over wildcard, decided segment by segment with
- * backtracking; an exact route wins over an absent trailing optional; parameters / wildcards bound to the corresponding path
- * segments, bindings of abandoned branches dropped.  Containers are ghost models at method boundaries:
- *   unordered_map<string_view, shared_ptr<Node>>  = { n, entries } with real pair layout, iteration in entry order;
- *   vector<TypedParam> = { n, packed items } (item = name offset/length + value offset/length inside one byte arena);
- *   shared_ptr = { pointer, unused }; tuple = real layout (offsets generated from the headers).                                   */
+/* C10(a): SegmentTreeNode::findRoute (src/server/router.cc, sel mode) -- ONE INDUCTIVE STEP on an arbitrary node.
+ * The node under test has 0..2 fixed children, 0..NPAR parameter children, 0..1 optional child, possibly a splat child and
+ * possibly a route, with SYMBOLIC keys (1..2 bytes) and parameter names; the request path is empty or starts with a symbolic
+ * segment of 1..2 bytes followed or not by a lower path; params/splats already hold 0..2 arbitrary bindings.  The recursive
+ * calls findRoute makes on its children are redirected (by the translator, see 'selfcall') to a stub that IS the induction
+ * hypothesis: for child k and the lower path it answers an arbitrary but fixed outcome -- not found (params/splats untouched, empty
+ * vectors returned) or found with route r_k and the bindings passed in followed by arbitrary further bindings.
+ * Asserted against a reference written from the property: the result is that of the first alternative that succeeds in the order
+ * fixed > parameter > optional > wildcard (backtracking); the parameter / wildcard of the chosen alternative is bound to exactly the
+ * current segment, after the earlier bindings and before the child's; bindings of abandoned alternatives are gone; on failure
+ * params/splats are as they were; an exhausted path yields the node's own route, else what an absent trailing optional yields.
+ * Induction over (remaining path, tree height) extends the step to trees and paths of any size.                                   */
 #include "vp.h"
 #include "libc.h"
 #include "ghost.h"
 #include "offsets.h"
-#ifndef NNODES
-#define NNODES 4
-#endif
-#ifndef NSEG
-#define NSEG 2
-#endif
 #ifndef NPAR
-#define NPAR 1
+#define NPAR 2
 #endif
+#define KMAX 2          /* key / segment / parameter-name length bound */
 void _ZNK8Pistache4Rest15SegmentTreeNode9findRouteERKSt17basic_string_viewIcSt11char_traitsIcEERSt6vectorINS0_10TypedParamESaIS9_EESC_(u8*, u8*, u8*, u8*, u8*);
 /* ------------------------------------------------------------------ byte arena: keys at [0,32), path at [32,64) */
 static u8 arena[64];
@@ -29,32 +26,27 @@ typedef struct { u64 len; u8* p; } sv_t;
 typedef struct { sv_t key; u8* node; u8* ctrl; } entry_t;
 _Static_assert(sizeof(entry_t) == SIZEOF_NodeMapEntry && offsetof(entry_t, node) == OFF_NodeMapEntry_second && sizeof(sv_t) == SIZEOF_StringView, "map entry layout");
 typedef struct { u64 n; entry_t* e; } gmapn_t;
-typedef struct { u64 n; u64 w; u64 pad; } gvec_t;
+typedef struct { u64 n; u64 w; u64 w2; } gvec_t;   /* items 0..3 in w, 4..7 in w2 */
 #define GM_(m) ((gmapn_t*)(m))
 #define GV(v) ((gvec_t*)(v))
-static u8 nodes[NNODES][SIZEOF_Node] __attribute__((aligned(8)));
-static entry_t ent_fixed[NNODES][2], ent_param[NNODES][2], ent_opt[NNODES][1];
-static u8 routes[NNODES][8];
+#define NCH 6                                  /* children: 0,1 fixed  2,3 parameter  4 optional  5 splat */
+static u8 node[SIZEOF_Node] __attribute__((aligned(8)));
+static u8 child[NCH][SIZEOF_Node] __attribute__((aligned(8)));
+static entry_t ent_fixed[2], ent_param[2], ent_opt[1];
+static u8 routes[NCH + 1][8];
 /* ------------------------------------------------------------------ string_view */
 u8 _ZNKSt17basic_string_viewIcSt11char_traitsIcEE5emptyEv(u8* s) { return ((sv_t*)s)->len == 0; }
 u8* _ZNKSt17basic_string_viewIcSt11char_traitsIcEE4dataEv(u8* s) { return ((sv_t*)s)->p; }
 u64 _ZNKSt17basic_string_viewIcSt11char_traitsIcEE6lengthEv(u8* s) { return ((sv_t*)s)->len; }
 void _ZNSt17basic_string_viewIcSt11char_traitsIcEEC2EPKcm(u8* s, u8* p, u64 n) { ((sv_t*)s)->p = p; ((sv_t*)s)->len = n; }
-/* find(c, pos): generic scan g; the harness builds paths of one-byte segments, so for find('/', 0) on a view that starts at a
- * segment the answer is 1 (more segments follow) or npos -- returned in that constant form (keeps the recursion depth concrete for
- * the solver) after asserting that it equals the generic scan */
-u64 _ZNKSt17basic_string_viewIcSt11char_traitsIcEE4findEcm(u8* s, u8 c, u64 pos) {
-  sv_t* v = (sv_t*)s; u64 g = ~(u64)0;
-  for (u64 i = 2 * NSEG + 1; i > 0; i--) { u64 j = i - 1; if (j >= pos && j < v->len && v->p[j] == c) g = j; }
-  if (c == '/' && pos == 0) { u64 shape = v->len > 1 ? 1 : ~(u64)0; __CPROVER_assert(g == shape, "harness bound: paths consist of one-byte segments"); return shape; }
-  return g; }
+#define PMAX 8
+u64 _ZNKSt17basic_string_viewIcSt11char_traitsIcEE4findEcm(u8* s, u8 c, u64 pos) { sv_t* v = (sv_t*)s; u64 g = ~(u64)0; for (u64 i = PMAX; i > 0; i--) { u64 j = i - 1; if (j >= pos && j < v->len && v->p[j] == c) g = j; } return g; }
 agg16_8 _ZNKSt17basic_string_viewIcSt11char_traitsIcEE6substrEmm(u8* s, u64 pos, u64 n) {
   sv_t* v = (sv_t*)s; agg16_8 r; sv_t* o = (sv_t*)&r;
   if (pos > v->len) { _ZSt24__throw_out_of_range_fmtPKcz(0); o->len = 0; o->p = 0; return r; }
   u64 rem = v->len - pos; o->p = v->p + pos; o->len = n < rem ? n : rem; return r; }
-static int sv_eq(sv_t* a, sv_t* b) { if (a->len != b->len) return 0; for (u64 i = 0; i < 3; i++) if (i < a->len && a->p[i] != b->p[i]) return 0; return 1; }
+static int sv_eq(sv_t* a, sv_t* b) { if (a->len != b->len) return 0; for (u64 i = 0; i < KMAX; i++) if (i < a->len && a->p[i] != b->p[i]) return 0; return 1; }
 /* ------------------------------------------------------------------ unordered_map<string_view, shared_ptr<Node>> */
-#define UM "_ZNKSt13unordered_mapISt17basic_string_viewIcSt11char_traitsIcEESt10shared_ptrIN8Pistache4Rest15SegmentTreeNodeEESt4hashIS3_ESt8equal_toIS3_ESaISt4pairIKS3_S8_EEE"
 u64 _ZNKSt13unordered_mapISt17basic_string_viewIcSt11char_traitsIcEESt10shared_ptrIN8Pistache4Rest15SegmentTreeNodeEESt4hashIS3_ESt8equal_toIS3_ESaISt4pairIKS3_S8_EEE5countERSE_(u8* m, u8* k) {
   for (u64 i = 0; i < 2; i++) if (i < GM_(m)->n && sv_eq(&GM_(m)->e[i].key, (sv_t*)k)) return 1; return 0; }
 u8* _ZNKSt13unordered_mapISt17basic_string_viewIcSt11char_traitsIcEESt10shared_ptrIN8Pistache4Rest15SegmentTreeNodeEESt4hashIS3_ESt8equal_toIS3_ESaISt4pairIKS3_S8_EEE2atERSE_(u8* m, u8* k) {
@@ -77,103 +69,118 @@ u8* _ZNSt10shared_ptrIN8Pistache4Rest5RouteEEaSERKS3_(u8* d, u8* s) { *(u8**)d =
 u8 _ZStneIN8Pistache4Rest5RouteEEbRKSt10shared_ptrIT_EDn(u8* sp, u8* n) { (void)n; return *(u8**)sp != 0; }
 u8 _ZSteqIN8Pistache4Rest5RouteEEbRKSt10shared_ptrIT_EDn(u8* sp, u8* n) { (void)n; return *(u8**)sp == 0; }
 void _ZNSt12__shared_ptrIN8Pistache4Rest5RouteELN9__gnu_cxx12_Lock_policyE2EED2Ev(u8* sp) { (void)sp; }
-/* ------------------------------------------------------------------ vector<TypedParam>: packed items (16 bits each) */
+/* ------------------------------------------------------------------ vector<TypedParam>: packed items (16 bits each, <= 4) */
 static u64 pack(u8* np, u64 nl, u8* vp, u64 vl) {
   __CPROVER_assert(nl <= 3 && vl <= 3, "ghost vector item: name/value of at most 3 bytes (harness bound)");
   u64 no = nl ? (u64)(np - arena) : 0, vo = vl ? (u64)(vp - arena) : 0;
   __CPROVER_assert(no < 64 && vo < 64, "ghost vector item: name/value bytes lie in the harness arena (keys or path)");
   return (no & 63) | ((nl & 3) << 6) | ((vo & 63) << 8) | ((vl & 3) << 14); }
-void _ZNSt6vectorIN8Pistache4Rest10TypedParamESaIS2_EEC2Ev(u8* v) { GV(v)->n = 0; GV(v)->w = 0; }
+static void gv_push(gvec_t* v, u64 it) { __CPROVER_assert(v->n < 8, "ghost vector capacity (8 bindings: harness bound)"); if (v->n < 4) v->w |= (it & 0xffff) << (16 * v->n); else v->w2 |= (it & 0xffff) << (16 * (v->n - 4)); v->n++; }
+static void gv_pop(gvec_t* v) { __CPROVER_assert(v->n > 0, "pop_back on a non-empty vector"); v->n--; if (v->n < 4) v->w &= ~((u64)0xffff << (16 * v->n)); else v->w2 &= ~((u64)0xffff << (16 * (v->n - 4))); }
+void _ZNSt6vectorIN8Pistache4Rest10TypedParamESaIS2_EEC2Ev(u8* v) { GV(v)->n = 0; GV(v)->w = 0; GV(v)->w2 = 0; }
 void _ZNSt6vectorIN8Pistache4Rest10TypedParamESaIS2_EED2Ev(u8* v) { (void)v; }
-void _ZNSt6vectorIN8Pistache4Rest10TypedParamESaIS2_EEC2EOS4_(u8* d, u8* s) { GV(d)->n = GV(s)->n; GV(d)->w = GV(s)->w; GV(s)->n = 0; GV(s)->w = 0; }
-u8* _ZNSt6vectorIN8Pistache4Rest10TypedParamESaIS2_EEaSEOS4_(u8* d, u8* s) { GV(d)->n = GV(s)->n; GV(d)->w = GV(s)->w; GV(s)->n = 0; GV(s)->w = 0; return d; }
+void _ZNSt6vectorIN8Pistache4Rest10TypedParamESaIS2_EEC2EOS4_(u8* d, u8* s) { GV(d)->n = GV(s)->n; GV(d)->w = GV(s)->w; GV(d)->w2 = GV(s)->w2; GV(s)->n = 0; GV(s)->w = 0; GV(s)->w2 = 0; }
+u8* _ZNSt6vectorIN8Pistache4Rest10TypedParamESaIS2_EEaSEOS4_(u8* d, u8* s) { GV(d)->n = GV(s)->n; GV(d)->w = GV(s)->w; GV(d)->w2 = GV(s)->w2; GV(s)->n = 0; GV(s)->w = 0; GV(s)->w2 = 0; return d; }
 static u8 tp_dummy[SIZEOF_TypedParam];
 u8* _ZNSt6vectorIN8Pistache4Rest10TypedParamESaIS2_EE12emplace_backIJRNSt7__cxx1112basic_stringIcSt11char_traitsIcESaIcEEESC_EEERS2_DpOT_(u8* v, u8* name, u8* val) {
-  __CPROVER_assert(GV(v)->n < 4, "ghost vector capacity (4 bindings: harness bound)");
-  u64 it = pack(GS(name)->p, GS(name)->len, GS(val)->p, GS(val)->len);
-  GV(v)->w |= it << (16 * GV(v)->n); GV(v)->n++; return tp_dummy; }
-void _ZNSt6vectorIN8Pistache4Rest10TypedParamESaIS2_EE8pop_backEv(u8* v) {
-  __CPROVER_assert(GV(v)->n > 0, "pop_back on a non-empty vector");
-  GV(v)->n--; GV(v)->w &= ~((u64)0xffff << (16 * GV(v)->n)); }
+  gv_push(GV(v), pack(GS(name)->p, GS(name)->len, GS(val)->p, GS(val)->len)); return tp_dummy; }
+void _ZNSt6vectorIN8Pistache4Rest10TypedParamESaIS2_EE8pop_backEv(u8* v) { gv_pop(GV(v)); }
 /* ------------------------------------------------------------------ tuple<shared_ptr<Route>, vector, vector> (sret) */
+static void mk_result(u8* ret, u8* route, u8* a, u8* b) {
+  *(u8**)(ret + OFF_FindResult_route) = route; *(u8**)(ret + OFF_FindResult_route + 8) = 0;
+  _ZNSt6vectorIN8Pistache4Rest10TypedParamESaIS2_EEC2EOS4_(ret + OFF_FindResult_params, a); _ZNSt6vectorIN8Pistache4Rest10TypedParamESaIS2_EEC2EOS4_(ret + OFF_FindResult_splats, b); }
 void _ZSt10make_tupleIJDnSt6vectorIN8Pistache4Rest10TypedParamESaIS3_EES5_EESt5tupleIJDpNSt25__strip_reference_wrapperINSt5decayIT_E4typeEE6__typeEEEDpOS9_(u8* ret, u8* n, u8* a, u8* b) {
-  (void)n; *(u8**)(ret + OFF_FindResult_route) = 0; *(u8**)(ret + OFF_FindResult_route + 8) = 0;
+  /* tuple<nullptr_t, vector, vector>: 56 bytes, the first element is a bare nullptr_t (no control-block word) */
+  (void)n; *(u8**)(ret + OFF_FindResult_route) = 0;
   _ZNSt6vectorIN8Pistache4Rest10TypedParamESaIS2_EEC2EOS4_(ret + OFF_FindResult_params, a); _ZNSt6vectorIN8Pistache4Rest10TypedParamESaIS2_EEC2EOS4_(ret + OFF_FindResult_splats, b); }
-void _ZSt10make_tupleIJRKSt10shared_ptrIN8Pistache4Rest5RouteEESt6vectorINS2_10TypedParamESaIS8_EESA_EESt5tupleIJDpNSt25__strip_reference_wrapperINSt5decayIT_E4typeEE6__typeEEEDpOSE_(u8* ret, u8* r, u8* a, u8* b) {
-  *(u8**)(ret + OFF_FindResult_route) = *(u8**)r; *(u8**)(ret + OFF_FindResult_route + 8) = 0;
-  _ZNSt6vectorIN8Pistache4Rest10TypedParamESaIS2_EEC2EOS4_(ret + OFF_FindResult_params, a); _ZNSt6vectorIN8Pistache4Rest10TypedParamESaIS2_EEC2EOS4_(ret + OFF_FindResult_splats, b); }
+void _ZSt10make_tupleIJRKSt10shared_ptrIN8Pistache4Rest5RouteEESt6vectorINS2_10TypedParamESaIS8_EESA_EESt5tupleIJDpNSt25__strip_reference_wrapperINSt5decayIT_E4typeEE6__typeEEEDpOSE_(u8* ret, u8* r, u8* a, u8* b) { mk_result(ret, *(u8**)r, a, b); }
 
-/* ------------------------------------------------------------------ reference matcher (written from the property) */
-typedef struct { u8* route; u64 pn, pw, sn, sw; } ref_t;
-static u64 seg_item_name_key(entry_t* e, u64 seg) { return pack(e->key.p, e->key.len, PATH + 2 * seg, 1); }
-static int ref_find(u8* node, u64 seg, ref_t* st) {
-  gmapn_t* fx = GM_(node + OFF_Node_fixed); gmapn_t* pa = GM_(node + OFF_Node_param); gmapn_t* op = GM_(node + OFF_Node_optional);
-  u8* splat = *(u8**)(node + OFF_Node_splat); u8* route = *(u8**)(node + OFF_Node_route);
-  if (seg == NSEG) {                       /* path exhausted: the node's own route, else a trailing optional that is absent */
-#ifndef IMPL_OPTIONAL_SHADOWS_ROUTE
-    if (route) { st->route = route; return 1; }
-#endif
-    if (op->n) return ref_find(op->e[0].node, seg, st);
-    if (route) { st->route = route; return 1; }
-    return 0; }
-  u8 c = PATH[2 * seg];
-  for (u64 i = 0; i < 2; i++) if (i < fx->n && fx->e[i].key.len == 1 && fx->e[i].key.p[0] == c) { if (ref_find(fx->e[i].node, seg + 1, st)) return 1; }
-  for (u64 i = 0; i < 2; i++) if (i < pa->n) {
-    u64 it = seg_item_name_key(&pa->e[i], seg); st->pw |= it << (16 * st->pn); st->pn++;
-    if (ref_find(pa->e[i].node, seg + 1, st)) return 1;
-    st->pn--; st->pw &= ~((u64)0xffff << (16 * st->pn)); }
-  for (u64 i = 0; i < 1; i++) if (i < op->n) {
-    u64 it = seg_item_name_key(&op->e[i], seg); st->pw |= it << (16 * st->pn); st->pn++;
-    if (ref_find(op->e[i].node, seg + 1, st)) return 1;
-    st->pn--; st->pw &= ~((u64)0xffff << (16 * st->pn)); }
-  if (splat) {
-    u64 it = pack(PATH + 2 * seg, 1, PATH + 2 * seg, 1); st->sw |= it << (16 * st->sn); st->sn++;
-    if (ref_find(splat, seg + 1, st)) return 1;
-    st->sn--; st->sw &= ~((u64)0xffff << (16 * st->sn)); }
-  return 0; }
+/* ------------------------------------------------------------------ induction hypothesis: the recursive call on child k */
+static u8 ch_found[NCH]; static u8 ch_np[NCH], ch_ns[NCH]; static u16 ch_pitem[NCH], ch_sitem[NCH];   /* oracle */
+static u8* exp_lower_p; static u64 exp_lower_len; static u64 seg_len; static int path_empty;
+static int ncalls;
+void vp_rec_findRoute(u8* ret, u8* self, u8* path, u8* params, u8* splats) {
+  int k = -1; for (int i = 0; i < NCH; i++) if (self == child[i]) k = i;
+  __CPROVER_assert(k >= 0, "findRoute recurses only into children of the node");
+  ncalls++;
+  sv_t* p = (sv_t*)path;
+  if (path_empty) __CPROVER_assert(k == 4 && p->len == 0, "with the path exhausted only the (absent) trailing optional is consulted, with the empty path");
+  else __CPROVER_assert(p->len == exp_lower_len && (p->len == 0 || p->p == exp_lower_p), "a child is asked about exactly the lower path (the text after the first '/')");
+  if (k < 0) { __CPROVER_assume(0); }
+  if (ch_found[k]) {
+    if (ch_np[k]) gv_push(GV(params), ch_pitem[k]);
+    if (ch_ns[k]) gv_push(GV(splats), ch_sitem[k]);
+    mk_result(ret, routes[k], params, splats);
+  } else {
+    static gvec_t e1, e2; e1.n = 0; e1.w = 0; e1.w2 = 0; e2.n = 0; e2.w = 0; e2.w2 = 0;
+    mk_result(ret, 0, (u8*)&e1, (u8*)&e2);
+  } }
 
-u32 nondet_u32(void);
 int main(void) {
   __ir_init_globals();
-  /* keys: "a" "b" at arena[0..2), parameter names at arena[4..), one byte each preceded by ':' as addRoute stores them */
-  arena[0] = 'a'; arena[1] = 'b';
-  for (int i = 0; i < 8; i++) { arena[4 + 2 * i] = ':'; VP_SET(u8, arena[5 + 2 * i], "pname"); }
-  /* path: NSEG one-byte segments over {a,b} separated by '/' */
-  for (int s = 0; s < NSEG; s++) { u8 c; VP_SET(u8, c, "seg"); __CPROVER_assume(c == 'a' || c == 'b'); PATH[2 * s] = c; if (s + 1 < NSEG) PATH[2 * s + 1] = '/'; }
-  u64 plen = NSEG ? 2 * NSEG - 1 : 0;
-  /* symbolic tree */
-  for (int i = 0; i < NNODES; i++) {
-    u8* nd = nodes[i];
-    u32 nf, np, no, hs, hr; VP_SET(u32, nf, "nf"); VP_SET(u32, np, "np"); VP_SET(u32, no, "no"); VP_SET(u32, hs, "hs"); VP_SET(u32, hr, "hr");
-    __CPROVER_assume(nf <= 2 && np <= NPAR && no <= 1 && hs <= 1 && hr <= 1);
-    if (i == NNODES - 1) __CPROVER_assume(nf == 0 && np == 0 && no == 0 && hs == 0);
-#define CHILD(var, nm) u32 var; VP_SET(u32, var, nm); __CPROVER_assume(var > (u32)i && var < NNODES);
-    GM_(nd + OFF_Node_fixed)->n = nf; GM_(nd + OFF_Node_fixed)->e = ent_fixed[i];
-    u32 swap; VP_SET(u32, swap, "swap"); __CPROVER_assume(swap <= 1);
-    for (int k = 0; k < 2; k++) if (k < (int)nf) { CHILD(ci, "fchild") ent_fixed[i][k].key.p = arena + ((k ^ swap) & 1); ent_fixed[i][k].key.len = 1; ent_fixed[i][k].node = nodes[ci]; ent_fixed[i][k].ctrl = 0; }
-    GM_(nd + OFF_Node_param)->n = np; GM_(nd + OFF_Node_param)->e = ent_param[i];
-    for (int k = 0; k < NPAR; k++) if (k < (int)np) { CHILD(ci, "pchild") ent_param[i][k].key.p = arena + 4 + 2 * ((2 * i + k) & 7); ent_param[i][k].key.len = 2; ent_param[i][k].node = nodes[ci]; ent_param[i][k].ctrl = 0; }
-    GM_(nd + OFF_Node_optional)->n = no; GM_(nd + OFF_Node_optional)->e = ent_opt[i];
-    if (no) { CHILD(ci, "ochild") ent_opt[i][0].key.p = arena + 4 + 2 * ((2 * i + 5) & 7); ent_opt[i][0].key.len = 2; ent_opt[i][0].node = nodes[ci]; ent_opt[i][0].ctrl = 0; }
-    if (hs) { CHILD(ci, "schild") *(u8**)(nd + OFF_Node_splat) = nodes[ci]; } else *(u8**)(nd + OFF_Node_splat) = 0;
-    *(u8**)(nd + OFF_Node_route) = hr ? (u8*)routes[i] : (u8*)0;
-  }
-  /* run the real matcher */
+  /* keys and names: symbolic bytes (no '/'); fixed keys are distinct */
+  for (int i = 0; i < 32; i++) { VP_SET(u8, arena[i], "key"); __CPROVER_assume(arena[i] != '/'); }
+  u32 nf, np, no, hs, hr; VP_SET(u32, nf, "nf"); VP_SET(u32, np, "np"); VP_SET(u32, no, "no"); VP_SET(u32, hs, "hs"); VP_SET(u32, hr, "hr");
+  __CPROVER_assume(nf <= 2 && np <= NPAR && no <= 1 && hs <= 1 && hr <= 1);
+  u64 kl[5]; for (int i = 0; i < 5; i++) { VP_SET(u64, kl[i], "klen"); __CPROVER_assume(kl[i] >= 1 && kl[i] <= KMAX); }
+  GM_(node + OFF_Node_fixed)->n = nf; GM_(node + OFF_Node_fixed)->e = ent_fixed;
+  GM_(node + OFF_Node_param)->n = np; GM_(node + OFF_Node_param)->e = ent_param;
+  GM_(node + OFF_Node_optional)->n = no; GM_(node + OFF_Node_optional)->e = ent_opt;
+  for (int k = 0; k < 2; k++) { ent_fixed[k].key.p = arena + 4 * k; ent_fixed[k].key.len = kl[k]; ent_fixed[k].node = child[k]; ent_fixed[k].ctrl = 0; }
+  for (int k = 0; k < 2; k++) { ent_param[k].key.p = arena + 8 + 4 * k; ent_param[k].key.len = kl[2 + k]; ent_param[k].node = child[2 + k]; ent_param[k].ctrl = 0; }
+  ent_opt[0].key.p = arena + 16; ent_opt[0].key.len = kl[4]; ent_opt[0].node = child[4]; ent_opt[0].ctrl = 0;
+  if (nf == 2) __CPROVER_assume(!sv_eq(&ent_fixed[0].key, &ent_fixed[1].key));
+  *(u8**)(node + OFF_Node_splat) = hs ? (u8*)child[5] : (u8*)0;
+  *(u8**)(node + OFF_Node_route) = hr ? (u8*)routes[NCH] : (u8*)0;
+  /* path: empty, or a segment of 1..KMAX bytes (no '/'), optionally followed by '/' and a lower path of 0..3 arbitrary bytes */
+  u32 pe, hl; VP_SET(u32, pe, "path_empty"); VP_SET(u32, hl, "has_lower"); __CPROVER_assume(pe <= 1 && hl <= 1);
+  u64 ll; VP_SET(u64, seg_len, "seg_len"); VP_SET(u64, ll, "lower_len"); __CPROVER_assume(seg_len >= 1 && seg_len <= KMAX && ll <= 3);
+  for (int i = 0; i < PMAX; i++) { VP_SET(u8, PATH[i], "path"); }
+  for (int i = 0; i < KMAX; i++) if (i < (int)seg_len) __CPROVER_assume(PATH[i] != '/');
+  u64 plen; path_empty = (int)pe;
+  if (pe) plen = 0;
+  else if (!hl) { plen = seg_len; exp_lower_len = 0; exp_lower_p = 0; }
+  else { __CPROVER_assume(PATH[seg_len] == '/'); plen = seg_len + 1 + ll; exp_lower_len = ll; exp_lower_p = PATH + seg_len + 1; }
+  /* oracle for the children and earlier bindings */
+  for (int k = 0; k < NCH; k++) { VP_SET(u8, ch_found[k], "found"); VP_SET(u8, ch_np[k], "cnp"); VP_SET(u8, ch_ns[k], "cns"); VP_SET(u16, ch_pitem[k], "cpitem"); VP_SET(u16, ch_sitem[k], "csitem");
+    __CPROVER_assume(ch_found[k] <= 1 && ch_np[k] <= 1 && ch_ns[k] <= 1); }
+  static gvec_t params, splats; u64 p0n, s0n; u64 p0w, s0w;
+  VP_SET(u64, p0n, "p0n"); VP_SET(u64, s0n, "s0n"); VP_SET(u64, p0w, "p0w"); VP_SET(u64, s0w, "s0w"); __CPROVER_assume(p0n <= 2 && s0n <= 2);
+  p0w &= p0n == 0 ? 0 : p0n == 1 ? 0xffff : 0xffffffff; s0w &= s0n == 0 ? 0 : s0n == 1 ? 0xffff : 0xffffffff;
+  params.n = p0n; params.w = p0w; params.w2 = 0; splats.n = s0n; splats.w = s0w; splats.w2 = 0;
+  /* run one level of the real matcher */
   static u8 result[SIZEOF_FindResult] __attribute__((aligned(8)));
-  static gvec_t params, splats; params.n = 0; params.w = 0; splats.n = 0; splats.w = 0;
   sv_t path = { plen, PATH };
-  _ZNK8Pistache4Rest15SegmentTreeNode9findRouteERKSt17basic_string_viewIcSt11char_traitsIcEERSt6vectorINS0_10TypedParamESaIS9_EESC_(result, nodes[0], (u8*)&path, (u8*)&params, (u8*)&splats);
+  _ZNK8Pistache4Rest15SegmentTreeNode9findRouteERKSt17basic_string_viewIcSt11char_traitsIcEERSt6vectorINS0_10TypedParamESaIS9_EESC_(result, node, (u8*)&path, (u8*)&params, (u8*)&splats);
   __CPROVER_assert(!vp_take_exception(), "findRoute does not throw");
   u8* got = *(u8**)(result + OFF_FindResult_route);
-  /* reference */
-  ref_t st = { 0, 0, 0, 0, 0 };
-  int found = ref_find(nodes[0], 0, &st);
-  VP_OBS("found", found);
-  __CPROVER_assert((got != 0) == (found != 0), "a route is found iff the table prescribes one for this path");
-  if (found && got) {
-    __CPROVER_assert(got == st.route, "the route found is the matching route of highest precedence (fixed > parameter > optional > wildcard, with backtracking)");
-    __CPROVER_assert(GV(result + OFF_FindResult_params)->n == st.pn && GV(result + OFF_FindResult_params)->w == st.pw, "parameters are bound to the corresponding path segments, in path order, abandoned branches dropped");
-    __CPROVER_assert(GV(result + OFF_FindResult_splats)->n == st.sn && GV(result + OFF_FindResult_splats)->w == st.sw, "wildcards are bound to the corresponding path segments");
+  gvec_t* gp = GV(result + OFF_FindResult_params); gvec_t* gs = GV(result + OFF_FindResult_splats);
+  /* reference for this level */
+  u8* want = 0; gvec_t wp = { p0n, p0w, 0 }, ws = { s0n, s0w, 0 }; int done = 0;
+#define TAKE(k, pushp, pushs) do { if (!done && ch_found[k]) { done = 1; want = routes[k]; pushp; pushs; if (ch_np[k]) gv_push(&wp, ch_pitem[k]); if (ch_ns[k]) gv_push(&ws, ch_sitem[k]); } } while (0)
+  if (pe) {
+#ifndef IMPL_OPTIONAL_SHADOWS_ROUTE
+    if (hr) { done = 1; want = routes[NCH]; }
+#endif
+    if (!done && no) { TAKE(4, (void)0, (void)0); done = 1; }
+    if (!done && hr) { done = 1; want = routes[NCH]; }
+  } else {
+    sv_t seg = { seg_len, PATH };
+    for (int k = 0; k < 2; k++) if (k < (int)nf && sv_eq(&ent_fixed[k].key, &seg)) TAKE(k, (void)0, (void)0);
+    for (int k = 0; k < 2; k++) if (k < (int)np) TAKE(2 + k, gv_push(&wp, pack(ent_param[k].key.p, ent_param[k].key.len, PATH, seg_len)), (void)0);
+    if (no) TAKE(4, gv_push(&wp, pack(ent_opt[0].key.p, ent_opt[0].key.len, PATH, seg_len)), (void)0);
+    if (hs) TAKE(5, (void)0, gv_push(&ws, pack(PATH, seg_len, PATH, seg_len)));
+  }
+  VP_OBS("found", want != 0);
+  __CPROVER_assert((got != 0) == (want != 0), "a route is found iff the table prescribes one for this path");
+  if (want && got) {
+    __CPROVER_assert(got == want, "the route found is the matching route of highest precedence (fixed > parameter > optional > wildcard, with backtracking)");
+    __CPROVER_assert(gp->n == wp.n && gp->w == wp.w && gp->w2 == wp.w2, "parameters: earlier bindings, then this level's parameter bound to exactly the current segment, then the child's; abandoned branches dropped");
+    __CPROVER_assert(gs->n == ws.n && gs->w == ws.w && gs->w2 == ws.w2, "wildcards: earlier bindings, then this level's wildcard bound to exactly the current segment, then the child's");
+  }
+  if (!want && !got) {
+    __CPROVER_assert(params.n == p0n && params.w == p0w && params.w2 == 0 && splats.n == s0n && splats.w == s0w && splats.w2 == 0, "when nothing matches, the bindings passed in are left as they were (every tentative binding was removed)");
+    __CPROVER_assert(gp->n == 0 && gs->n == 0, "a failed lookup returns no bindings");
   }
   VP_END("witness: end of harness reached");
   return 0;
